@@ -25,6 +25,9 @@ pub static DEF: PropertyDef = PropertyDef {
     generate,
     execute,
     must_hit: &["fault.reset.fired_nontrivial"],
+    timeout_s: 30,
+    hang_class: None,
+    sub_builds: &[],
 };
 
 fn generate(corpus: &Corpus, tier: Tier, run: u64, rng: &mut Rng) -> Option<Case> {
